@@ -9,14 +9,19 @@ corr  : the Lean encoding model (MakoModel/Encoding/Model.lean, driver op `encd`
             conflicting and malformed declarations (the codec and the registry's `_is_utf8` answer are CPython's, standing in
             for the abstract `Codec` / `Env.isUtf8`; a second stream runs the whole function in Lean for utf-8/latin-1/ascii
             with the regenerated alias table);
-          * `util.parse_encoding`, the magic comment line and the `repr`ed text of real module files, `Template.source`,
+          * the preprocessor order of `Lexer.parse` (decode, then the preprocessors on the decoded str, then the comment skip
+            on what they return) with a recorder, mako's convert_comments and a text-changing preprocessor;
+          * `util.parse_encoding`, the first lines (magic comment, then `from __future__ import`) and the `repr`ed text of
+            real module files, `Template.source`,
             `runtime._render`/`FastEncodingBuffer.getvalue` (which encode call, on what);
           * the codec laws the theorems assume (`AsciiPrefix`, `Charwise`, `HighBytes` = strict ASCII compatibility,
             `RoundTrip`) are TESTED per codec on its whole table / repertoire and written to the evidence.
 oracle: no Lean.  Generated templates (text, expressions, Python string literals, tag attributes, control lines with
         characters of the codec's repertoire) x codecs x declaration styles x paths {bytes, file, module directory,
         reloaded by a fresh Template, reloaded in a fresh process, TemplateLookup, module directory with a non-ASCII file
-        name}: output, `Template.source`, `render()` equal those of the template made from the decoded text, the module
+        name} x options {future_imports none / ['annotations', 'division']} x {preprocessor none / recorder (must be handed
+        exactly the decoded str) / convert_comments / text-changing}, the same options on the reference template: output,
+        `Template.source`, `render()` equal those of the template made from the decoded text, the module
         file is in the encoding Python detects for it and equals `Template.code`; undecodable input / BOM-vs-comment
         conflict raise CompileException; `render()` vs `render_unicode().encode(output_encoding, encoding_errors)`.
         The expectation comes from what the generator planted, never from mako's own sniffing.  Four fixed witnesses (the
@@ -47,7 +52,8 @@ RULE = ("templates = optional declaration line + 2..7 parts drawn from {text run
         "effective codec cannot decode} (2 cases per codec x style in the quick tier, 14 in the thorough tier; declared bodies always "
         "contain a non-ASCII character when the codec has one) x path {bytes, file, module directory, fresh Template on the module "
         "file, fresh process, TemplateLookup, non-ASCII file name} (thorough: all; quick: bytes + two rotating paths, conflicting "
-        "declarations always bytes + all module-file paths) x 9 output_encoding values x 6 encoding_errors handlers (render stream; quick: strict + one random handler per case); "
+        "declarations always bytes + all module-file paths) x option {future_imports off/on (alternating), preprocessor none/recorder/"
+        "convert_comments/Z->ZQ (rotating with style and codec)} x 9 output_encoding values x 6 encoding_errors handlers (render stream; quick: strict + one random handler per case); "
         "plus adversarial byte strings around the declaration logic (6k quick / 60k thorough) for the correspondence; a case is "
         "non-trivial when the source bytes are not pure ASCII or carry a declaration; distinct = distinct (bytes, input_encoding, path)")
 ASSUMPTIONS = [
